@@ -566,6 +566,48 @@ def c_local_opassigns(body):
     return out
 
 
+def c_local_field_assigns(body):
+    """{(local, field)} for plain assignments `local = other;` of a C function body where `other` is a state field
+    (`state->wnext`) or a local that the function initialises from one (`wnext = state->wnext; ... op = wnext;`)"""
+    from_field = {}
+    for m in re.finditer(r"(?<![\w>.\]])([a-z_]\w*)\s*=\s*(?:\(\w[\w \*]*\)\s*)?(?:s|state|strm)->(?:x\.|strm\.)?(\w+)\s*;", body):
+        from_field.setdefault(m.group(1), set()).add(m.group(2))
+    out = set()
+    for loc, flds in from_field.items():
+        for fl in flds:
+            out.add((loc, fl))
+    for m in re.finditer(r"(?<![\w>.\]])([a-z_]\w*)\s*=\s*([a-z_]\w*)\s*;", body):
+        a, b = m.group(1), m.group(2)
+        if a != b and b in from_field and len(from_field[b]) == 1:
+            out.add((a, next(iter(from_field[b]))))
+    return out
+
+
+def rust_local_field_assigns(f):
+    """{(local name, token)} for assignments to a named local whose value is nothing but a state field or an accessor call
+    (`op = window_next` with `window_next = state.window.next()`): tokens are the field name and `type::method` / method names"""
+    out = set()
+    for bi, si, lhs, rv, st in f.assignments():
+        if lhs.get("p"):
+            continue
+        name = f.local_name(lhs["l"])
+        if not name:
+            continue
+        e = mir.strip_casts(f.rvalue_expr(rv))
+        while e and e[0] in ("*", "&"):
+            e = mir.strip_casts(e[1])
+        if e and e[0] == "f":
+            r_, fp_ = mir.field_path(e)
+            if fp_:
+                out.add((name, str(fp_[-1]).lower()))
+        elif e and e[0] == "call" and isinstance(e[1], str) and len(e[2]) <= 1:
+            segs = e[1].split("::")
+            out.add((name, segs[-1].lower()))
+            if len(segs) >= 2:
+                out.add((name, (segs[-2] + "::" + segs[-1]).lower()))
+    return out
+
+
 def rust_local_opassigns(f):
     """{(local name, operator): sites} for every `x = x OP ..` on a named local of one function (also through shadowing:
     the operand is a local of the same name)"""
@@ -972,6 +1014,26 @@ def check(ck, P, rule, only=None):
                           "zlib-ng's %s updates its local `%s` with %s and %s did so at %d place(s); it now does at %d although the local "
                           "is still there: an adjustment of the reference's working variable was dropped or turned into a fresh value"
                           % (cname, nm, op, fpath.replace(Z, ""), cnt, got), where(g))
+        for fpath, want_ in sorted(table.get("local_assigns", {}).get(key, {}).items()):
+            g = P.fns.get(fpath)
+            if g is None:
+                continue
+            have_ = rust_local_field_assigns(g)
+            names_ = {}
+            for l in g.locals:
+                if l.get("name"):
+                    names_[str(l["name"])] = names_.get(str(l["name"]), 0) + 1
+            for no, nloc in sorted(want_.items()):
+                nm, cf = no.split("|")
+                if names_.get(nm, 0) < nloc:
+                    continue  # renamed
+                n += 1
+                alts = ALIAS.get(cf.lower(), {cf.lower()}) | {cf.lower()}
+                ck.decide(any((nm, a_) in have_ for a_ in alts), rule, "%s:local-assign:%s:%s=%s" % (cname, fpath.split("::")[-1], nm, cf),
+                          "working local still takes that state value",
+                          "zlib-ng's %s assigns `%s = %s` and %s did so too; no assignment to `%s` takes that value any more although the "
+                          "local is still there: a working variable of the reference is re-loaded from something else"
+                          % (cname, nm, cf, fpath.replace(Z, ""), nm), where(g))
         for cf, frozen in sorted(table.get("opsets", {}).get(key, {}).items()):
             n += 1
             alts = ALIAS.get(cf.lower(), {cf.lower()}) | {cf.lower()}
